@@ -8,6 +8,8 @@ open SqlObjVerif.Ddl
 open SqlObjVerif.PyDdl hiding Str isUpperC
 open SqlObjVerif.PyDdl.Extracted
 
+variable {x : ClsX}
+
 theorem mem_fk_mro (k : Kind) : (C_SOForeignKey ∈ prog.mroOf (clsOf k)) ↔ (∃ a b c d, k = .fk a b c d) := by
   cases k with
   | simple k => cases k <;> simp [clsOf, simpleCls] <;> try decide
@@ -61,7 +63,7 @@ def hasRef (d : Dialect) (decl : Decl) (col : Col) : Bool := (alterFk TX d decl 
 set_option maxHeartbeats 1000000 in
 /-- **`DBAPI.createReferenceConstraints` translated = `constraints`** -/
 theorem createReferenceConstraints_eq (n : Nat) (d : Dialect) (c : Caps) (decl : Decl) (c0 : Val) :
-    callN prog ddlI (n + 3) (.meth (connCls d) M_createReferenceConstraints) [connV d c, soClassV decl c0] =
+    callN prog ddlI (n + 3) (.meth (connCls d) M_createReferenceConstraints) [connV d c, soClassV decl c0 x] =
       .ok (strList (constraints TX d decl)) := by
   have hres : prog.resolve (.meth (connCls d) M_createReferenceConstraints) = some DBAPI__createReferenceConstraints_fn := by
     cases d <;> rfl
@@ -69,7 +71,7 @@ theorem createReferenceConstraints_eq (n : Nat) (d : Dialect) (c : Caps) (decl :
   have h1 := collectR_filter_call (fun col : Col => C_SOForeignKey ∈ prog.mroOf (clsOf col.kind))
     (fun _ => inferInstance)
     (fun col => callN prog ddlI (n + 2) (.meth (connCls d) M_createReferenceConstraint)
-      [connV d c, soClassV decl c0, colV TX decl.style decl.tableName c0 col])
+      [connV d c, soClassV decl c0 x, colV TX decl.style decl.tableName c0 col])
     (fun col => optStr (alterFk TX d decl col)) decl.cols
     (fun col _ hp => refConstraint_col n d c _ decl c0 col ((mem_fk_mro col.kind).1 hp))
   pyxwith [metaV, filterMapR_map, compStep]
@@ -98,12 +100,12 @@ def agreesT (r : R Val) (o : Option Str) (cons : List Str) : Prop :=
 set_option maxHeartbeats 1000000 in
 /-- **`DBAPI.createTableSQL` translated = (`createTableSQL`, `constraints`) of the hand model** -/
 theorem createTableSQL_agrees (n : Nat) (d : Dialect) (c : Caps) (decl : Decl) (c0 : Val) :
-    agreesT (callN prog ddlI (n + 9) (.meth (connCls d) M_createTableSQL) [connV d c, soClassV decl c0])
+    agreesT (callN prog ddlI (n + 9) (.meth (connCls d) M_createTableSQL) [connV d c, soClassV decl c0 x])
       (createTableSQL TX d c decl) (constraints TX d decl) := by
   have hres : prog.resolve (.meth (connCls d) M_createTableSQL) = some DBAPI__createTableSQL_fn := by cases d <;> rfl
   rw [callX_succ _ _ _ _ hres, createTableSQL_eq_colsModel]
-  have hc := createReferenceConstraints_eq (n + 5) d c decl c0
-  have hb := createColumns_agrees n d c decl c0
+  have hc := createReferenceConstraints_eq (x := x) (n + 5) d c decl c0
+  have hb := createColumns_agrees (x := x) n d c decl c0
   cases hm : colsModel d c decl with
   | none =>
     rw [hm] at hb
